@@ -201,6 +201,39 @@ def json_roundtrip(tier, seed):
                 st4, eq = _ev("deep-equal(parse-json($t), parse-json(xml-to-json(json-to-xml($t))))", t=t)
                 if (st4, eq) != ('ok', True) and st3 == 'ok':
                     bad(f'parse-json disagrees between t and its XML round trip ({shape})', text=t[:100], got=repr((st4, eq))[:80])
+    # JSON texts near the edge of the grammar: what is not JSON is rejected (not read as something else), what is JSON survives the XML form - also with
+    # escaped keys next to non-string values - and whatever xml-to-json returns is JSON
+    for t in ('[NaN]', '[Infinity]', '-Infinity', 'NaN', "{'a': 1}", '[1,]', '01', '1.', '.5', '"\x01"', '[1 2]', '', 'nul', '+1', '1e', '[1] x'):
+        for fn_ in ('parse-json($t)', 'json-to-xml($t)'):
+            n += 1
+            try:
+                json.loads(t, parse_constant=lambda c: (_ for _ in ()).throw(ValueError(c)))
+                is_json = True
+            except ValueError:
+                is_json = False
+            st, out = _ev(fn_, t=t)
+            if not is_json and st == 'ok':
+                bad(f'{fn_.split("(")[0]} accepts a text that is not JSON (without the liberal option)', text=t, got=repr(out)[:60])
+    for t in ('{"a\\\\b": 1}', '{"a\\\\b": true}', '{"q\\"": null}', '{"a\\nb": [1]}', '{"a\\\\b": {"c\\td": "x"}}', '{"k": "a\\\\b"}', '["\\u0041", "\\\\"]', r'"a\/b"', r'"\\\""', r'"C:\\users"', r'{"C:\\users": 1}', r'"\\u00e9"', r'["x\\", "\\u"]'):
+        for opts in ("map{'escape': true()}", "map{'escape': false()}", "map{}"):
+            n += 1
+            st, out = _ev(f"xml-to-json(json-to-xml($t, {opts}))", t=t)
+            try:
+                ok = st == 'ok' and json_equal(json.loads(out), json.loads(t))
+            except ValueError:
+                ok = False
+            if not ok:
+                bad('xml-to-json(json-to-xml(t, options)) raises or denotes another value when keys or strings need escaping', text=t, options=opts, got=repr((st, out))[:100])
+    for t in ('1e400', '-1e400', '[1e400]', '1e-400', '123456789012345678901234567890', '-0', '0.0', '1E2'):
+        n += 1
+        st, out = _ev("xml-to-json(json-to-xml($t))", t=t)
+        if st == 'ok':
+            try:
+                json.loads(out, parse_constant=lambda c: (_ for _ in ()).throw(ValueError(c)))
+            except ValueError:
+                bad('xml-to-json returns a text that is not JSON', text=t, out=repr(out)[:60])
+        elif st == 'crash':
+            bad('xml-to-json(json-to-xml(t)) raises a non-XPath error on a number', text=t, got=out)
     fails = [{'key': k, 'items': it[:4], 'count': len(it), 'what': f'{k}: e.g. {it[0]}'} for k, it in fam.items()]
     return {'evaluations': n, 'distinct': n, 'exhaustive': False,
             'scope': f'{len(STRINGS)} strings (escapes, control, astral, duplicate-looking keys), {len(NUMBERS)} numbers, booleans, null, all one-level wrappings, 20 '
@@ -282,6 +315,26 @@ def xml_roundtrip(tier, seed):
                 same = f'{e.code}'
             if same is not True:
                 bad('parse-xml(serialize(node)) is not deep-equal to the node', tree=repr(t)[:160], text=text[:120], got=repr(same))
+    # carriage returns in content, and attributes in the namespace that the caller's map binds to the empty prefix: through the public select()
+    import elementpath as _ep
+    for lib_name, mod in (('xml.etree', ET), ('lxml', LX)):
+        for src, nsmap in (('<r a="x&#13;y">t&#13;u<b>&#13;</b>&#13;&#10;<c>&#10;&#13;</c></r>', None), ('<r>a&#13;<!--c-->b<?p d?>&#13;</r>', None),
+                           ('<p:r xmlns:p="urn:d" p:a="1"/>', {'': 'urn:d'}), ('<p:r xmlns:p="urn:d" p:a="1" a="2"><p:b p:c="3"/></p:r>', {'': 'urn:d'}),
+                           ('<r xmlns="urn:d" xmlns:q="urn:d" q:a="1"/>', {'': 'urn:d', 'q': 'urn:e'}), ('<p:r xmlns:p="urn:d" p:a="1"/>', {'p': 'urn:d'}),
+                           ('<r xmlns="urn:d"><b a="1"/></r>', {'': 'urn:d'})):
+            n += 1
+            try:
+                root = mod.XML(src) if mod is LX else ET.XML(src, parser=ET.XMLParser(target=ET.TreeBuilder(insert_comments=True, insert_pis=True)))
+                text = _ep.select(root, 'serialize(.)', parser=XPath31Parser, namespaces=nsmap)
+                same = _ep.select(root, 'deep-equal(., parse-xml(serialize(.))/*)', parser=XPath31Parser, namespaces=nsmap)
+                again = LX.fromstring(text.encode('utf-8'))
+            except Exception as e:      # noqa
+                bad('serialize / parse-xml through select() raises', source=src, lib=lib_name, namespaces=repr(nsmap), err=f'{type(e).__name__}: {str(e)[:80]}')
+                continue
+            ref = LX.XML(src)
+            if same is not True or not tree_equal(ref, again):
+                what = 'a carriage return in the content' if '&#13;' in src else 'an attribute in the namespace bound to the empty prefix of the caller' if nsmap and '' in nsmap else 'namespaces'
+                bad(f'parse-xml(serialize(e)) differs from e ({what})', source=src, lib=lib_name, namespaces=repr(nsmap), text=text[:120], deep_equal=repr(same))
     # document nodes with comments and processing instructions around the root element (lxml keeps them): the serialised text has the same document-level nodes
     # in the same order, read back by libxml2; targets starting with "xml" (xml-stylesheet, xml-model) are ordinary processing instructions, not declarations
     def doc_level(r):
